@@ -62,7 +62,9 @@ impl Scenario for SignSc {
         p.steps.push(Step::new(class, &[index as i64]));
         // "<class>-lengths": the same procedure, with (group, scheme, composite-boundary length) enumerated
         let lengths = class.ends_with("-lengths");
-        match class.trim_end_matches("-lengths") {
+        let big = class.ends_with("-big");
+        match class.trim_end_matches("-lengths").trim_end_matches("-big") {
+            "grid" if big => {}
             "grid" if lengths => {}
             "grid-keys" => {
                 // every limb-pattern key x every key codec; group and scheme rotate
@@ -138,6 +140,13 @@ impl Scenario for SignSc {
             }
             _ => {}
         }
+        if big {
+            // "arbitrarily long": 1-4 MiB messages, group and scheme rotating
+            p.set("g", (index % 2) as i64);
+            p.set("scheme", ((index / 2) % 3) as i64);
+            p.set("msg_class", (crate::env::BIG_BASE as u64 + (index / 6) % crate::env::BIG_SIGN_LENS.len() as u64) as i64);
+            p.set("key_class", x.below(6) as i64);
+        }
         if lengths {
             let n = crate::env::composite_lens().len() as u64;
             p.set("g", (index % 2) as i64);
@@ -149,7 +158,7 @@ impl Scenario for SignSc {
     }
     fn run(&self, plan: &Plan, env: &Env, rec: &mut Rec) {
         let lib = env.cur;
-        match plan.class.trim_end_matches("-lengths") {
+        match plan.class.trim_end_matches("-lengths").trim_end_matches("-big") {
             "grid" | "grid-keys" | "retry-restart" => run_sign_rt(plan, lib, rec),
             "tamper" => run_tamper(plan, lib, rec),
             "bitflip-all" => run_bitflip_all(plan, lib, rec),
@@ -692,7 +701,7 @@ fn run_interop(plan: &Plan, lib: &dyn Lib, rec: &mut Rec) {
     let b = Bls::draft(sig_grp(g));
     let mut c = Courier::new(plan.seed, 2);
     // KeyGen from seeds of assorted lengths
-    let seed_len = *x.pick(&[0usize, 1, 16, 28, 31, 32, 33, 48, 64, 100]);
+    let seed_len = *x.pick(&[0usize, 1, 16, 28, 31, 32, 33, 48, 55, 56, 63, 64, 65, 100, 119, 120, 127, 128, 255, 256, 1024, 65536]);
     let ikm = x.bytes(seed_len);
     let sk_ref = refimpl::keygen(&ikm);
     for op in [Op::KeyFromHash, Op::KeyFromHashViaBls] {
